@@ -22,7 +22,10 @@ ends in exactly one row of the decision table `Spec`:
 
 * `wait` — the request is still incomplete: nothing queued, no plugin, returns False;
 * `served pid td` — the request completed, its protocol is known, plugin `pid` is the first
-  enabled plugin handling it and its `on_request_complete` returned (`td` = its verdict);
+  enabled plugin handling it and its `on_request_complete` returned (`td` = its verdict); when it
+  returned False, the bytes that followed the request in the same segment are taken out of the
+  parser and handed to the plugin's `on_client_data` in the same call (84c574d) — if that raises a
+  protocol exception the row is `reject`, as for any later client data;
 * `reject why hq` — returns True (teardown) and what the handler itself queued is `hq`:
   exactly `[BAD_REQUEST_RESPONSE_PKT]` (parse error of any kind / unknown protocol / no plugin),
   or the raising plugin exception's `response()` (one packet or nothing);
@@ -57,7 +60,7 @@ theorem C06_exclusive (cfg : Cfg) (hc : NoCrash cfg) (st : St) (data : Bytes) (h
     | unknownProtocol => exact Or.inl hs.2.2.2.1
     | noPlugin p => exact Or.inl hs.2.2.2.1
     | pluginRaised pid =>
-      obtain ⟨_, _, resp, _, _, _, _, hq', _⟩ := hs.2.2
+      obtain ⟨_, _, resp, _, _, _, hq', _⟩ := hs.2.2
       cases resp with
       | none => exact Or.inr (Or.inl (by rw [hq']; rfl))
       | some r =>
@@ -66,8 +69,10 @@ theorem C06_exclusive (cfg : Cfg) (hc : NoCrash cfg) (st : St) (data : Bytes) (h
         · refine Or.inr (Or.inr ⟨r, by rw [hq']; simp [respQueue, hr], ?_⟩)
           intro h0; rw [h0] at hr; exact hr rfl
   | escaped pid =>
-    obtain ⟨rq, q, _, hcr, _⟩ := hs
-    exact hc.1 pid rq q hcr
+    obtain ⟨rq, q, _, _, hcr⟩ := hs
+    rcases hcr with ⟨hcr, _⟩ | ⟨q1, rem, _, _, hcr, _⟩
+    · exact hc.1 pid rq q hcr
+    · exact hc.2 pid _ rem q hcr
   | data _ => exact hs
   | ignored => exact hs
 
@@ -101,11 +106,14 @@ theorem C06_reject_stops_reading (cfg : Cfg) (st : St) (data : Bytes) (more : Li
       simp only [hb, Bool.not_false, if_true, true_and]
       intro h0; rw [h0] at hb; exact hb rfl
 
-/-- a plugin hook that breaks the contract: the exception leaves `handle_data` (the executor
-tears the work down, C05); the handler itself queues nothing -/
+/-- a plugin hook that breaks the contract (`on_request_complete`, or `on_client_data` on the
+leftover of the segment): the exception leaves `handle_data` (the executor tears the work down,
+C05); the handler itself queues nothing -/
 theorem C06_crash_escapes (cfg : Cfg) (st : St) (data : Bytes) (h : st.request.state ≠ .complete)
     (pid : Nat) (hp : (handleData cfg st data).2.1 = .escaped pid) :
-    ∃ rq q, cfg.onComplete pid rq = .crash q ∧ (handleData cfg st data).1.buffer = st.buffer ++ q ∧
+    (∃ rq q, (cfg.onComplete pid rq = .crash q ∧ (handleData cfg st data).1.buffer = st.buffer ++ q) ∨
+        (∃ q1 rem, cfg.onComplete pid rq = .ret q1 false ∧ cfg.onClientData pid st.calls rem = .crash q ∧
+          (handleData cfg st data).1.buffer = st.buffer ++ q1 ++ q)) ∧
       reading (tick cfg st data).1 = false := by
   have hs := C06_total cfg st data h
   have hstop : (handleData cfg st data).1.escaped = true → reading (tick cfg st data).1 = false :=
@@ -114,8 +122,11 @@ theorem C06_crash_escapes (cfg : Cfg) (st : St) (data : Bytes) (h : st.request.s
   obtain ⟨st', o, ret⟩ := res
   simp only at hp
   subst hp
-  obtain ⟨rq, q, _, hcr, hb, he⟩ := hs
-  exact ⟨rq, q, hcr, hb, hstop he⟩
+  obtain ⟨rq, q, _, he, hcr⟩ := hs
+  refine ⟨⟨rq, q, ?_⟩, hstop he⟩
+  rcases hcr with ⟨hcr, hb⟩ | ⟨q1, rem, h1, _, h2, hb⟩
+  · exact Or.inl ⟨hcr, hb⟩
+  · exact Or.inr ⟨q1, rem, h1, h2, hb⟩
 
 /-- non-vacuity: the plugin contract is satisfiable, and the three classes all occur -/
 example : NoCrash {} := ⟨fun _ _ _ h => (by cases h), fun _ _ _ _ h => (by cases h)⟩
@@ -131,6 +142,12 @@ example : (handleData { plugins := [[3]] } {} (b "GET http://h/ HTTP/2.0\r\n\r\n
 example : (handleData { plugins := [[3]], onComplete := fun _ _ => .raise [] (some Px.Gen.pkt_BAD_GATEWAY_RESPONSE_PKT) } {}
     (b "GET http://h/ HTTP/1.1\r\n\r\n")).2.1 = .reject (.pluginRaised 0) [Px.Gen.pkt_BAD_GATEWAY_RESPONSE_PKT] := by
   decide +kernel
+
+-- the leftover of the segment reaches the plugin within the same call (84c574d)
+example : (handleData { plugins := [[3]], onClientData := fun _ _ d => .ret [d] false } {}
+    (b "GET http://h/ HTTP/1.1\r\n\r\nNEXT")).1.buffer = [b "NEXT"] := by decide +kernel
+example : (handleData { plugins := [[3]], onClientData := fun _ _ _ => .raise [] none } {}
+    (b "GET http://h/ HTTP/1.1\r\n\r\nNEXT")).2.1 = .reject (.pluginRaised 0) [] := by decide +kernel
 
 end Px.First
 
